@@ -349,6 +349,12 @@ static CommandSignature getCommandHash(const ninja::Command* command) {
   for (const auto* input: command->getInputs()) {
     hash = hash.combine(input->getCanonicalPath());
   }
+  // The outputs are part of the definition too: a build statement that gains
+  // an output must run again even when its command line does not mention it.
+  hash = hash.combine(uint64_t(command->getOutputs().size()));
+  for (const auto* output: command->getOutputs()) {
+    hash = hash.combine(output->getCanonicalPath());
+  }
   return hash;
 }
 
